@@ -8,7 +8,7 @@ Reusable pieces:
 
 * `M.bind_ok_inv`, `M.pure_ok_iff`, ... : inversion of `.ok` runs through `>>=` / `pure`.
 * `Hoare P m Q` : generic partial-correctness triple over `M` (`Hoare.bind`, `Hoare.pure`, `Hoare.conseq`).
-* `H T D m T' D'` : "started with contexts `T`,`D`, a successful run of `m` ends with contexts `T'`,`D'`".
+* `CtxH T D m T' D'` : "started with contexts `T`,`D`, a successful run of `m` ends with contexts `T'`,`D'`".
 * `Post m Q` : every value returned by a successful run of `m` satisfies `Q`.
 -/
 
@@ -83,80 +83,80 @@ theorem Hoare.panicAt {α} {P : St → Prop} {Q : α → St → Prop} {site : St
 
 /-- Started with typing context `T` and definitions context `D`, every successful run of `m` ends with
 contexts `T'` and `D'`. -/
-def H {α} (T : List (Tm × Nat)) (D : List (Option (Tm × Nat))) (m : M α)
+def CtxH {α} (T : List (Tm × Nat)) (D : List (Option (Tm × Nat))) (m : M α)
     (T' : List (Tm × Nat)) (D' : List (Option (Tm × Nat))) : Prop :=
   ∀ s a s', s.tctx = T → s.dctx = D → m s = .ok a s' → s'.tctx = T' ∧ s'.dctx = D'
 
 section
 variable {α β : Type} {T T1 T2 : List (Tm × Nat)} {D D1 D2 : List (Option (Tm × Nat))}
 
-theorem H.bind {m : M α} {f : α → M β}
-    (h1 : H T D m T1 D1) (h2 : ∀ a, H T1 D1 (f a) T2 D2) : H T D (m >>= f) T2 D2 := by
+theorem CtxH.bind {m : M α} {f : α → M β}
+    (h1 : CtxH T D m T1 D1) (h2 : ∀ a, CtxH T1 D1 (f a) T2 D2) : CtxH T D (m >>= f) T2 D2 := by
   intro s b s2 ht hd h
   obtain ⟨a, s1, e1, e2⟩ := M.bind_ok_inv h
   obtain ⟨ht1, hd1⟩ := h1 s a s1 ht hd e1
   exact h2 a s1 b s2 ht1 hd1 e2
 
 /-- bind whose first action preserves the contexts -/
-theorem H.bind_same {m : M α} {f : α → M β}
-    (h1 : H T D m T D) (h2 : ∀ a, H T D (f a) T2 D2) : H T D (m >>= f) T2 D2 := H.bind h1 h2
+theorem CtxH.bind_same {m : M α} {f : α → M β}
+    (h1 : CtxH T D m T D) (h2 : ∀ a, CtxH T D (f a) T2 D2) : CtxH T D (m >>= f) T2 D2 := CtxH.bind h1 h2
 
-theorem H.pure {a : α} : H T D (pure a : M α) T D := by
+theorem CtxH.pure {a : α} : CtxH T D (pure a : M α) T D := by
   intro s b s' ht hd e
   obtain ⟨_, rfl⟩ := M.pure_ok_iff.mp e
   exact ⟨ht, hd⟩
 
-theorem H.outOfFuel : H T D (outOfFuel : M α) T2 D2 := fun _ _ _ _ _ e => absurd e outOfFuel_ne_ok
-theorem H.panicAt {site : String} : H T D (panicAt site : M α) T2 D2 :=
+theorem CtxH.outOfFuel : CtxH T D (outOfFuel : M α) T2 D2 := fun _ _ _ _ _ e => absurd e outOfFuel_ne_ok
+theorem CtxH.panicAt {site : String} : CtxH T D (panicAt site : M α) T2 D2 :=
   fun _ _ _ _ _ e => absurd e panicAt_ne_ok
 
-theorem H.modifySt {g : St → St} (hg : ∀ s, s.tctx = T → s.dctx = D → (g s).tctx = T1 ∧ (g s).dctx = D1) :
-    H T D (modifySt g) T1 D1 := by
+theorem CtxH.modifySt {g : St → St} (hg : ∀ s, s.tctx = T → s.dctx = D → (g s).tctx = T1 ∧ (g s).dctx = D1) :
+    CtxH T D (modifySt g) T1 D1 := by
   intro s a s' ht hd e
   rw [modifySt_ok_iff.mp e]
   exact hg s ht hd
 
-theorem H.getSt : H T D getSt T D := by
+theorem CtxH.getSt : CtxH T D getSt T D := by
   intro s a s' ht hd e
   cases e
   exact ⟨ht, hd⟩
-theorem H.cellGet {id : Nat} : H T D (cellGet id) T D := by
+theorem CtxH.cellGet {id : Nat} : CtxH T D (cellGet id) T D := by
   intro s a s' ht hd e
   cases e
   exact ⟨ht, hd⟩
-theorem H.cellFresh : H T D cellFresh T D := by
+theorem CtxH.cellFresh : CtxH T D cellFresh T D := by
   intro s a s' ht hd e
   cases e
   exact ⟨ht, hd⟩
-theorem H.cellSet {id : Nat} {t : Tm} : H T D (cellSet id t) T D :=
-  H.modifySt fun _ ht hd => ⟨ht, hd⟩
-theorem H.reportError : H T D reportError T D :=
-  H.modifySt fun _ ht hd => ⟨ht, hd⟩
-theorem H.pushCtx {ty : Tm × Nat} {d : Option (Tm × Nat)} : H T D (pushCtx ty d) (ty :: T) (d :: D) :=
-  H.modifySt fun _ ht hd => by simp [ht, hd]
-theorem H.popCtx : H T D popCtx T.tail D.tail :=
-  H.modifySt fun _ ht hd => by simp [ht, hd]
-theorem H.pushD {d : Option (Tm × Nat)} : H T D (pushD d) T (d :: D) :=
-  H.modifySt fun _ ht hd => by simp [ht, hd]
-theorem H.popD : H T D popD T D.tail :=
-  H.modifySt fun _ ht hd => by simp [ht, hd]
-theorem H.popCtx_cons {ty : Tm × Nat} {d : Option (Tm × Nat)} : H (ty :: T) (d :: D) _root_.popCtx T D :=
-  H.popCtx
-theorem H.popD_cons {d : Option (Tm × Nat)} : H T (d :: D) _root_.popD T D := H.popD
+theorem CtxH.cellSet {id : Nat} {t : Tm} : CtxH T D (cellSet id t) T D :=
+  CtxH.modifySt fun _ ht hd => ⟨ht, hd⟩
+theorem CtxH.reportError : CtxH T D reportError T D :=
+  CtxH.modifySt fun _ ht hd => ⟨ht, hd⟩
+theorem CtxH.pushCtx {ty : Tm × Nat} {d : Option (Tm × Nat)} : CtxH T D (pushCtx ty d) (ty :: T) (d :: D) :=
+  CtxH.modifySt fun _ ht hd => by simp [ht, hd]
+theorem CtxH.popCtx : CtxH T D popCtx T.tail D.tail :=
+  CtxH.modifySt fun _ ht hd => by simp [ht, hd]
+theorem CtxH.pushD {d : Option (Tm × Nat)} : CtxH T D (pushD d) T (d :: D) :=
+  CtxH.modifySt fun _ ht hd => by simp [ht, hd]
+theorem CtxH.popD : CtxH T D popD T D.tail :=
+  CtxH.modifySt fun _ ht hd => by simp [ht, hd]
+theorem CtxH.popCtx_cons {ty : Tm × Nat} {d : Option (Tm × Nat)} : CtxH (ty :: T) (d :: D) _root_.popCtx T D :=
+  CtxH.popCtx
+theorem CtxH.popD_cons {d : Option (Tm × Nat)} : CtxH T (d :: D) _root_.popD T D := CtxH.popD
 
 end
 
-theorem H.out {α} {T T' : List (Tm × Nat)} {D D' : List (Option (Tm × Nat))} {m : M α}
-    (h : H T D m T' D') {s : St} {a : α} {s' : St} (e : m s = .ok a s')
+theorem CtxH.out {α} {T T' : List (Tm × Nat)} {D D' : List (Option (Tm × Nat))} {m : M α}
+    (h : CtxH T D m T' D') {s : St} {a : α} {s' : St} (e : m s = .ok a s')
     (ht : s.tctx = T) (hd : s.dctx = D) : s'.tctx = T' ∧ s'.dctx = D' := h s a s' ht hd e
 
 /-- context preservation, as a statement about runs -/
-theorem H.restores {α} {m : M α} (h : ∀ T D, H T D m T D) {s : St} {a : α} {s' : St}
+theorem CtxH.restores {α} {m : M α} (h : ∀ T D, CtxH T D m T D) {s : St} {a : α} {s' : St}
     (e : m s = .ok a s') : s'.tctx = s.tctx ∧ s'.dctx = s.dctx := (h _ _).out e rfl rfl
 
-attribute [irreducible] H
+attribute [irreducible] CtxH
 
-/-- extensible: lemmas of the form `H T D (f ..) T D` for functions already treated; also tries\nlocal hypotheses named `ih`, `ih1`, `ih2` -/
+/-- extensible: lemmas of the form `CtxH T D (f ..) T D` for functions already treated; also tries\nlocal hypotheses named `ih`, `ih1`, `ih2` -/
 syntax "ctx_known" : tactic
 set_option hygiene false in
 macro_rules | `(tactic| ctx_known) => `(tactic| with_reducible exact ih ..)
@@ -164,24 +164,24 @@ set_option hygiene false in
 macro_rules | `(tactic| ctx_known) => `(tactic| with_reducible exact ih1 ..)
 set_option hygiene false in
 macro_rules | `(tactic| ctx_known) => `(tactic| with_reducible exact ih2 ..)
-macro_rules | `(tactic| ctx_known) => `(tactic| with_reducible exact H.getSt)
-macro_rules | `(tactic| ctx_known) => `(tactic| with_reducible exact H.cellGet)
-macro_rules | `(tactic| ctx_known) => `(tactic| with_reducible exact H.cellFresh)
-macro_rules | `(tactic| ctx_known) => `(tactic| with_reducible exact H.cellSet)
-macro_rules | `(tactic| ctx_known) => `(tactic| with_reducible exact H.reportError)
+macro_rules | `(tactic| ctx_known) => `(tactic| with_reducible exact CtxH.getSt)
+macro_rules | `(tactic| ctx_known) => `(tactic| with_reducible exact CtxH.cellGet)
+macro_rules | `(tactic| ctx_known) => `(tactic| with_reducible exact CtxH.cellFresh)
+macro_rules | `(tactic| ctx_known) => `(tactic| with_reducible exact CtxH.cellSet)
+macro_rules | `(tactic| ctx_known) => `(tactic| with_reducible exact CtxH.reportError)
 
-/-- one step of the syntax-directed proof of an `H` goal -/
+/-- one step of the syntax-directed proof of an `CtxH` goal -/
 macro "ctx_step" : tactic => `(tactic| first
-  | with_reducible exact H.pure
-  | with_reducible exact H.outOfFuel
-  | with_reducible exact H.panicAt
+  | with_reducible exact CtxH.pure
+  | with_reducible exact CtxH.outOfFuel
+  | with_reducible exact CtxH.panicAt
   | ctx_known
-  | with_reducible refine H.bind H.pushD (fun _ => ?_)
-  | with_reducible refine H.bind H.popD_cons (fun _ => ?_)
-  | with_reducible refine H.bind H.pushCtx (fun _ => ?_)
-  | with_reducible refine H.bind H.popCtx_cons (fun _ => ?_)
-  | with_reducible refine H.bind_same (by ctx_known) (fun _ => ?_)
-  | with_reducible refine H.bind_same ?_ (fun _ => ?_)
+  | with_reducible refine CtxH.bind CtxH.pushD (fun _ => ?_)
+  | with_reducible refine CtxH.bind CtxH.popD_cons (fun _ => ?_)
+  | with_reducible refine CtxH.bind CtxH.pushCtx (fun _ => ?_)
+  | with_reducible refine CtxH.bind CtxH.popCtx_cons (fun _ => ?_)
+  | with_reducible refine CtxH.bind_same (by ctx_known) (fun _ => ?_)
+  | with_reducible refine CtxH.bind_same ?_ (fun _ => ?_)
   | split)
 
 macro "ctx_auto" : tactic => `(tactic| repeat ctx_step)
@@ -189,14 +189,14 @@ macro "ctx_auto" : tactic => `(tactic| repeat ctx_step)
 /-! ## `sshiftS` -/
 
 theorem sshift_ctx : ∀ (f : Nat),
-    (∀ c amt t T D, H T D (sshiftS f c amt t) T D) ∧
-    (∀ c amt ds T D, H T D (sshiftDefsS f c amt ds) T D) := by
+    (∀ c amt t T D, CtxH T D (sshiftS f c amt t) T D) ∧
+    (∀ c amt ds T D, CtxH T D (sshiftDefsS f c amt ds) T D) := by
   intro f
   induction f with
   | zero =>
     constructor
-    · intro c amt t T D; unfold sshiftS; exact H.outOfFuel
-    · intro c amt t T D; unfold sshiftDefsS; exact H.outOfFuel
+    · intro c amt t T D; unfold sshiftS; exact CtxH.outOfFuel
+    · intro c amt t T D; unfold sshiftDefsS; exact CtxH.outOfFuel
   | succ f ih =>
     obtain ⟨ih1, ih2⟩ := ih
     constructor
@@ -207,13 +207,13 @@ theorem sshift_ctx : ∀ (f : Nat),
       unfold sshiftDefsS
       ctx_auto
 
-theorem sshiftS_ctx (f c amt t T D) : H T D (sshiftS f c amt t) T D := (sshift_ctx f).1 c amt t T D
-theorem sshiftDefsS_ctx (f c amt ds T D) : H T D (sshiftDefsS f c amt ds) T D :=
+theorem sshiftS_ctx (f c amt t T D) : CtxH T D (sshiftS f c amt t) T D := (sshift_ctx f).1 c amt t T D
+theorem sshiftDefsS_ctx (f c amt ds T D) : CtxH T D (sshiftDefsS f c amt ds) T D :=
   (sshift_ctx f).2 c amt ds T D
 macro_rules | `(tactic| ctx_known) => `(tactic| with_reducible exact sshiftS_ctx ..)
 macro_rules | `(tactic| ctx_known) => `(tactic| with_reducible exact sshiftDefsS_ctx ..)
 
-theorem ushiftS_ctx (f c a t T D) : H T D (ushiftS f c a t) T D := by
+theorem ushiftS_ctx (f c a t T D) : CtxH T D (ushiftS f c a t) T D := by
   unfold ushiftS
   ctx_auto
 macro_rules | `(tactic| ctx_known) => `(tactic| with_reducible exact ushiftS_ctx ..)
@@ -221,14 +221,14 @@ macro_rules | `(tactic| ctx_known) => `(tactic| with_reducible exact ushiftS_ctx
 /-! ## `openS` -/
 
 theorem open_ctx : ∀ (f : Nat),
-    (∀ t i u s T D, H T D (openS f t i u s) T D) ∧
-    (∀ ds i u s T D, H T D (openDefsS f ds i u s) T D) := by
+    (∀ t i u s T D, CtxH T D (openS f t i u s) T D) ∧
+    (∀ ds i u s T D, CtxH T D (openDefsS f ds i u s) T D) := by
   intro f
   induction f with
   | zero =>
     constructor
-    · intros; unfold openS; exact H.outOfFuel
-    · intros; unfold openDefsS; exact H.outOfFuel
+    · intros; unfold openS; exact CtxH.outOfFuel
+    · intros; unfold openDefsS; exact CtxH.outOfFuel
   | succ f ih =>
     obtain ⟨ih1, ih2⟩ := ih
     constructor
@@ -239,30 +239,30 @@ theorem open_ctx : ∀ (f : Nat),
       unfold openDefsS
       ctx_auto
 
-theorem openS_ctx (f t i u s T D) : H T D (openS f t i u s) T D := (open_ctx f).1 t i u s T D
-theorem openDefsS_ctx (f ds i u s T D) : H T D (openDefsS f ds i u s) T D :=
+theorem openS_ctx (f t i u s T D) : CtxH T D (openS f t i u s) T D := (open_ctx f).1 t i u s T D
+theorem openDefsS_ctx (f ds i u s T D) : CtxH T D (openDefsS f ds i u s) T D :=
   (open_ctx f).2 ds i u s T D
 macro_rules | `(tactic| ctx_known) => `(tactic| with_reducible exact openS_ctx ..)
 macro_rules | `(tactic| ctx_known) => `(tactic| with_reducible exact openDefsS_ctx ..)
 
-theorem unfoldDefS_ctx (f x ann d index T D) : H T D (unfoldDefS f x ann d index) T D := by
+theorem unfoldDefS_ctx (f x ann d index T D) : CtxH T D (unfoldDefS f x ann d index) T D := by
   unfold unfoldDefS
   ctx_auto
 macro_rules | `(tactic| ctx_known) => `(tactic| with_reducible exact unfoldDefS_ctx ..)
 
 theorem substDefsS_ctx (f : Nat) : ∀ (ds : Defs) (idx : Nat) (u : Tm) T D,
-    H T D (substDefsS f ds idx u) T D
-  | .nil, idx, u, T, D => by unfold substDefsS; exact H.pure
+    CtxH T D (substDefsS f ds idx u) T D
+  | .nil, idx, u, T, D => by unfold substDefsS; exact CtxH.pure
   | .cons x a d r, idx, u, T, D => by
       have ih := substDefsS_ctx f r
       unfold substDefsS
       ctx_auto
 macro_rules | `(tactic| ctx_known) => `(tactic| with_reducible exact substDefsS_ctx ..)
 
-theorem letLoopS_ctx : ∀ (f : Nat) (todo : Defs) (body : Tm) T D, H T D (letLoopS f todo body) T D := by
+theorem letLoopS_ctx : ∀ (f : Nat) (todo : Defs) (body : Tm) T D, CtxH T D (letLoopS f todo body) T D := by
   intro f
   induction f with
-  | zero => intros; unfold letLoopS; exact H.outOfFuel
+  | zero => intros; unfold letLoopS; exact CtxH.outOfFuel
   | succ f ih =>
     intro todo body T D
     unfold letLoopS
@@ -271,10 +271,10 @@ macro_rules | `(tactic| ctx_known) => `(tactic| with_reducible exact letLoopS_ct
 
 /-! ## `whnfS` -/
 
-theorem whnfS_ctx : ∀ (f : Nat) (t : Tm) T D, H T D (whnfS f t) T D := by
+theorem whnfS_ctx : ∀ (f : Nat) (t : Tm) T D, CtxH T D (whnfS f t) T D := by
   intro f
   induction f with
-  | zero => intros; unfold whnfS; exact H.outOfFuel
+  | zero => intros; unfold whnfS; exact CtxH.outOfFuel
   | succ f ih =>
     intro t T D
     unfold whnfS
@@ -283,10 +283,10 @@ macro_rules | `(tactic| ctx_known) => `(tactic| with_reducible exact whnfS_ctx .
 
 /-! ## `derefS`, `synEqS`, `occursS`, `solveS` -/
 
-theorem derefS_ctx : ∀ (f : Nat) (t : Tm) T D, H T D (derefS f t) T D := by
+theorem derefS_ctx : ∀ (f : Nat) (t : Tm) T D, CtxH T D (derefS f t) T D := by
   intro f
   induction f with
-  | zero => intros; unfold derefS; exact H.outOfFuel
+  | zero => intros; unfold derefS; exact CtxH.outOfFuel
   | succ f ih =>
     intro t T D
     unfold derefS
@@ -294,14 +294,14 @@ theorem derefS_ctx : ∀ (f : Nat) (t : Tm) T D, H T D (derefS f t) T D := by
 macro_rules | `(tactic| ctx_known) => `(tactic| with_reducible exact derefS_ctx ..)
 
 theorem synEq_ctx : ∀ (f : Nat),
-    (∀ t1 t2 T D, H T D (synEqS f t1 t2) T D) ∧
-    (∀ ds1 ds2 T D, H T D (synEqDefsS f ds1 ds2) T D) := by
+    (∀ t1 t2 T D, CtxH T D (synEqS f t1 t2) T D) ∧
+    (∀ ds1 ds2 T D, CtxH T D (synEqDefsS f ds1 ds2) T D) := by
   intro f
   induction f with
   | zero =>
     constructor
-    · intros; unfold synEqS; exact H.outOfFuel
-    · intros; unfold synEqDefsS; exact H.outOfFuel
+    · intros; unfold synEqS; exact CtxH.outOfFuel
+    · intros; unfold synEqDefsS; exact CtxH.outOfFuel
   | succ f ih =>
     obtain ⟨ih1, ih2⟩ := ih
     constructor
@@ -311,21 +311,21 @@ theorem synEq_ctx : ∀ (f : Nat),
     · intro ds1 ds2 T D
       unfold synEqDefsS
       ctx_auto
-theorem synEqS_ctx (f t1 t2 T D) : H T D (synEqS f t1 t2) T D := (synEq_ctx f).1 t1 t2 T D
-theorem synEqDefsS_ctx (f ds1 ds2 T D) : H T D (synEqDefsS f ds1 ds2) T D :=
+theorem synEqS_ctx (f t1 t2 T D) : CtxH T D (synEqS f t1 t2) T D := (synEq_ctx f).1 t1 t2 T D
+theorem synEqDefsS_ctx (f ds1 ds2 T D) : CtxH T D (synEqDefsS f ds1 ds2) T D :=
   (synEq_ctx f).2 ds1 ds2 T D
 macro_rules | `(tactic| ctx_known) => `(tactic| with_reducible exact synEqS_ctx ..)
 macro_rules | `(tactic| ctx_known) => `(tactic| with_reducible exact synEqDefsS_ctx ..)
 
 theorem occurs_ctx : ∀ (f : Nat),
-    (∀ id t T D, H T D (occursS f id t) T D) ∧
-    (∀ id ds T D, H T D (occursDefsS f id ds) T D) := by
+    (∀ id t T D, CtxH T D (occursS f id t) T D) ∧
+    (∀ id ds T D, CtxH T D (occursDefsS f id ds) T D) := by
   intro f
   induction f with
   | zero =>
     constructor
-    · intros; unfold occursS; exact H.outOfFuel
-    · intros; unfold occursDefsS; exact H.outOfFuel
+    · intros; unfold occursS; exact CtxH.outOfFuel
+    · intros; unfold occursDefsS; exact CtxH.outOfFuel
   | succ f ih =>
     obtain ⟨ih1, ih2⟩ := ih
     constructor
@@ -335,23 +335,23 @@ theorem occurs_ctx : ∀ (f : Nat),
     · intro id ds T D
       unfold occursDefsS
       ctx_auto
-theorem occursS_ctx (f id t T D) : H T D (occursS f id t) T D := (occurs_ctx f).1 id t T D
-theorem occursDefsS_ctx (f id ds T D) : H T D (occursDefsS f id ds) T D :=
+theorem occursS_ctx (f id t T D) : CtxH T D (occursS f id t) T D := (occurs_ctx f).1 id t T D
+theorem occursDefsS_ctx (f id ds T D) : CtxH T D (occursDefsS f id ds) T D :=
   (occurs_ctx f).2 id ds T D
 macro_rules | `(tactic| ctx_known) => `(tactic| with_reducible exact occursS_ctx ..)
 macro_rules | `(tactic| ctx_known) => `(tactic| with_reducible exact occursDefsS_ctx ..)
 
-theorem solveS_ctx (f id shift other T D) : H T D (solveS f id shift other) T D := by
+theorem solveS_ctx (f id shift other T D) : CtxH T D (solveS f id shift other) T D := by
   unfold solveS
   ctx_auto
 macro_rules | `(tactic| ctx_known) => `(tactic| with_reducible exact solveS_ctx ..)
 
 /-! ## `unifyS` -/
 
-theorem unifyS_ctx : ∀ (f : Nat) (t1 t2 : Tm) T D, H T D (unifyS f t1 t2) T D := by
+theorem unifyS_ctx : ∀ (f : Nat) (t1 t2 : Tm) T D, CtxH T D (unifyS f t1 t2) T D := by
   intro f
   induction f with
-  | zero => intros; unfold unifyS; exact H.outOfFuel
+  | zero => intros; unfold unifyS; exact CtxH.outOfFuel
   | succ f ih =>
     intro t1 t2 T D
     unfold unifyS
@@ -361,11 +361,11 @@ theorem unifyS_ctx : ∀ (f : Nat) (t1 t2 : Tm) T D, H T D (unifyS f t1 t2) T D 
     ctx_step
     ctx_step
     extract_lets structural rightHole
-    have hs : ∀ T D, H T D structural T D := by
+    have hs : ∀ T D, CtxH T D structural T D := by
       intro T D
       unfold structural
       ctx_auto
-    have hr : ∀ T D, H T D rightHole T D := by
+    have hr : ∀ T D, CtxH T D rightHole T D := by
       intro T D
       unfold rightHole
       repeat (first | exact hs _ _ | ctx_step)
@@ -375,10 +375,10 @@ macro_rules | `(tactic| ctx_known) => `(tactic| with_reducible exact unifyS_ctx 
 /-! ## `letTypeS`, `pushDefsS`, `popN` -/
 
 theorem letTypeS_ctx (f : Nat) (ds : Defs) : ∀ (k i : Nat) (acc : Tm) T D,
-    H T D (letTypeS f ds k i acc) T D := by
+    CtxH T D (letTypeS f ds k i acc) T D := by
   intro k
   induction k with
-  | zero => intros; unfold letTypeS; exact H.pure
+  | zero => intros; unfold letTypeS; exact CtxH.pure
   | succ k ih =>
     intro i acc T D
     unfold letTypeS
@@ -410,54 +410,54 @@ theorem pushedD_drop : ∀ (ds : Defs) (k : Nat) (D : List (Option (Tm × Nat)))
       simpa [pushedD, List.drop_drop, Nat.add_comm] using this
 
 theorem pushDefsS_ctx : ∀ (ds : Defs) (k : Nat) T D,
-    H T D (pushDefsS ds k) (pushedT ds k T) (pushedD ds k D)
-  | .nil, k, T, D => by unfold pushDefsS pushedT pushedD; exact H.pure
+    CtxH T D (pushDefsS ds k) (pushedT ds k T) (pushedD ds k D)
+  | .nil, k, T, D => by unfold pushDefsS pushedT pushedD; exact CtxH.pure
   | .cons x ann d r, k, T, D => by
       unfold pushDefsS pushedT pushedD
-      exact H.bind H.pushCtx (fun _ => pushDefsS_ctx r (k - 1) _ _)
+      exact CtxH.bind CtxH.pushCtx (fun _ => pushDefsS_ctx r (k - 1) _ _)
 
-theorem popN_ctx : ∀ (n : Nat) T D, H T D (popN n) (T.drop n) (D.drop n) := by
+theorem popN_ctx : ∀ (n : Nat) T D, CtxH T D (popN n) (T.drop n) (D.drop n) := by
   intro n
   induction n with
-  | zero => intro T D; unfold popN; exact H.pure
+  | zero => intro T D; unfold popN; exact CtxH.pure
   | succ n ih =>
     intro T D
     unfold popN
-    refine H.bind H.popCtx (fun _ => ?_)
+    refine CtxH.bind CtxH.popCtx (fun _ => ?_)
     have := ih T.tail D.tail
     simpa [List.drop_tail] using this
 
 /-- `pushDefsS ds k` followed (after context-preserving actions) by `popN ds.len` restores the contexts -/
 theorem popN_pushed_ctx (ds : Defs) (k : Nat) T D :
-    H (pushedT ds k T) (pushedD ds k D) (popN ds.len) T D := by
+    CtxH (pushedT ds k T) (pushedD ds k D) (popN ds.len) T D := by
   have := popN_ctx ds.len (pushedT ds k T) (pushedD ds k D)
   rwa [pushedT_drop, pushedD_drop] at this
 
 /-! ## `inferS` -/
 
 theorem infer_ctx : ∀ (f : Nat),
-    (∀ t T D, H T D (inferS f t) T D) ∧
-    (∀ ds T D, H T D (inferDefsS f ds) T D) := by
+    (∀ t T D, CtxH T D (inferS f t) T D) ∧
+    (∀ ds T D, CtxH T D (inferDefsS f ds) T D) := by
   intro f
   induction f with
   | zero =>
     constructor
-    · intros; unfold inferS; exact H.outOfFuel
-    · intros; unfold inferDefsS; exact H.outOfFuel
+    · intros; unfold inferS; exact CtxH.outOfFuel
+    · intros; unfold inferDefsS; exact CtxH.outOfFuel
   | succ f ih =>
     obtain ⟨ih1, ih2⟩ := ih
     constructor
     · intro t T D
       unfold inferS
       repeat (first
-        | with_reducible refine H.bind (pushDefsS_ctx ..) (fun _ => ?_)
-        | with_reducible refine H.bind (popN_pushed_ctx ..) (fun _ => ?_)
+        | with_reducible refine CtxH.bind (pushDefsS_ctx ..) (fun _ => ?_)
+        | with_reducible refine CtxH.bind (popN_pushed_ctx ..) (fun _ => ?_)
         | ctx_step)
     · intro ds T D
       unfold inferDefsS
       ctx_auto
-theorem inferS_ctx (f t T D) : H T D (inferS f t) T D := (infer_ctx f).1 t T D
-theorem inferDefsS_ctx (f ds T D) : H T D (inferDefsS f ds) T D := (infer_ctx f).2 ds T D
+theorem inferS_ctx (f t T D) : CtxH T D (inferS f t) T D := (infer_ctx f).1 t T D
+theorem inferDefsS_ctx (f ds T D) : CtxH T D (inferDefsS f ds) T D := (infer_ctx f).2 ds T D
 macro_rules | `(tactic| ctx_known) => `(tactic| with_reducible exact inferS_ctx ..)
 macro_rules | `(tactic| ctx_known) => `(tactic| with_reducible exact inferDefsS_ctx ..)
 
@@ -486,3 +486,43 @@ theorem Post.out {α} {m : M α} {Q : α → Prop} (h : Post m Q) {s : St} {a : 
     (e : m s = .ok a s') : Q a := h s a s' e
 
 attribute [irreducible] Post
+
+/-! ## elaboration returns the input term (C05) -/
+
+theorem infer_elab : ∀ (f : Nat),
+    (∀ t, Post (inferS f t) (fun p => p.1 = t)) ∧
+    (∀ ds, Post (inferDefsS f ds) (fun l => Defs.setDefs ds l = ds)) := by
+  intro f
+  induction f with
+  | zero =>
+    constructor
+    · intros; unfold inferS; exact Post.outOfFuel
+    · intros; unfold inferDefsS; exact Post.outOfFuel
+  | succ f ih =>
+    obtain ⟨ih1, ih2⟩ := ih
+    constructor
+    · intro t
+      unfold inferS
+      repeat (first
+        | with_reducible exact Post.outOfFuel
+        | with_reducible exact Post.panicAt
+        | focus ((with_reducible refine Post.pure ?_); simp_all; done)
+        | with_reducible refine Post.bind (ih1 _) (fun _ _ => ?_)
+        | with_reducible refine Post.bind (ih2 _) (fun _ _ => ?_)
+        | with_reducible refine Post.bind_triv (fun _ => ?_)
+        | split)
+    · intro ds
+      unfold inferDefsS
+      repeat (first
+        | with_reducible exact Post.outOfFuel
+        | with_reducible exact Post.panicAt
+        | focus ((with_reducible refine Post.pure ?_); simp_all [Defs.setDefs]; done)
+        | with_reducible refine Post.bind (ih1 _) (fun _ _ => ?_)
+        | with_reducible refine Post.bind (ih2 _) (fun _ _ => ?_)
+        | with_reducible refine Post.bind_triv (fun _ => ?_)
+        | split)
+
+theorem inferS_elab_id {f : Nat} {t : Tm} {s : St} {p : Tm × Tm} {s' : St}
+    (h : inferS f t s = .ok p s') : p.1 = t := ((infer_elab f).1 t).out h
+theorem inferDefsS_elab_id {f : Nat} {ds : Defs} {s : St} {l : List Tm} {s' : St}
+    (h : inferDefsS f ds s = .ok l s') : Defs.setDefs ds l = ds := ((infer_elab f).2 ds).out h
